@@ -588,6 +588,39 @@ impl Property for C04 {
         v
     }
 
+    fn extra(&self, tier: Tier, seed: u64) -> ExtraResult<C04Case> {
+        let mut r = ExtraResult::default();
+        if tier != Tier::Thorough {
+            return r;
+        }
+        let seeds: Vec<Vec<u8>> = pool().iter().filter(|p| p.bytes.len() < 40_000).map(|p| p.bytes.clone()).collect();
+        let c = fuzz::run(&fuzz::Campaign { target: "fz_read", runs: 250_000, jobs: 8, max_len: 65536, seeds }, seed ^ 0xc04);
+        r.fields = c.fields;
+        r.inconclusive = c.inconclusive;
+        r.cases = c.artifacts.into_iter().map(|b| C04Case::Pkg(PkgCase::Bytes(b))).collect();
+        // a well-formed archive as seed for the cpio target (first byte selects 32/64-bit sizes)
+        let mut arch = vec![0u8];
+        arch.extend(crate::refimpl::cpio::write_archive(&[CpioSpec::newc("./a", 0o100644, 1, b"hello".to_vec()), CpioSpec::newc("./usr/b", 0o100644, 2, vec![]), CpioSpec::newc("./usr/c", 0o100644, 3, b"0123456789abcdef".to_vec()), CpioSpec::trailer()]));
+        let mut stripped = vec![1u8];
+        stripped.extend(crate::refimpl::cpio::write_archive(&[CpioSpec::stripped(0, b"hello".to_vec()), CpioSpec::stripped(2, b"0123456789abcdef".to_vec()), CpioSpec::trailer()]));
+        let c2 = fuzz::run(&fuzz::Campaign { target: "fz_cpio", runs: 250_000, jobs: 8, max_len: 4096, seeds: vec![arch, stripped, vec![]] }, seed);
+        r.fields.extend(c2.fields);
+        if r.inconclusive.is_none() {
+            r.inconclusive = c2.inconclusive;
+        }
+        for a in c2.artifacts {
+            // rebuild the package the target built around the archive bytes
+            use crate::gen::filepkg::{self, ModelFile};
+            let mk = |dir: &str, base: &str, content: &[u8]| ModelFile { dir: dir.into(), base: base.into(), mode: 0o100644, mtime: 1, flags: 0, user: "root".into(), group: "root".into(), linkto: String::new(), content: content.to_vec() };
+            let files = vec![mk("/", "a", b"hello"), mk("/usr/", "b", b""), mk("/usr/", "c", b"0123456789abcdef")];
+            let long = a.first().map(|b| b & 1 == 1).unwrap_or(false);
+            let mut main = filepkg::basic_entries("fz");
+            main.extend(filepkg::file_entries(&files, long));
+            let bytes = filepkg::wrap(main, a.get(1..).unwrap_or(&[]).to_vec(), true).encode();
+            r.cases.push(C04Case::Pkg(PkgCase::Bytes(bytes)));
+        }
+        r
+    }
     fn check(&self, case: &C04Case) -> Outcome {
         let mut o = Outcome::new();
         o.label(match case {
